@@ -97,8 +97,9 @@ func exprDepth(v ssa.Value, subst map[*ssa.Parameter]string, depth int) string {
 		return s + "]"
 	case *ssa.Phi:
 		if phiCyclic(x) {
-			// loop-carried value (induction variable, accumulator)
-			return "*" + x.Comment
+			// loop-carried value (induction variable, accumulator); the SSA name keeps two
+			// loops' counters apart
+			return "*" + x.Comment + "." + x.Name()
 		}
 		parts := make([]string, 0, len(x.Edges))
 		seen := map[string]bool{}
@@ -540,7 +541,24 @@ func phiCyclic(p *ssa.Phi) bool {
 			if b, ok := x.Call.Value.(*ssa.Builtin); ok && b.Name() == "append" && len(x.Call.Args) > 0 {
 				return walk(x.Call.Args[0], d+1)
 			}
+			for _, a := range x.Call.Args {
+				if walk(a, d+1) {
+					return true
+				}
+			}
 		case *ssa.Slice:
+			return walk(x.X, d+1)
+		case *ssa.FieldAddr:
+			return walk(x.X, d+1)
+		case *ssa.Field:
+			return walk(x.X, d+1)
+		case *ssa.IndexAddr:
+			return walk(x.X, d+1) || walk(x.Index, d+1)
+		case *ssa.Index:
+			return walk(x.X, d+1) || walk(x.Index, d+1)
+		case *ssa.Extract:
+			return walk(x.Tuple, d+1)
+		case *ssa.ChangeType:
 			return walk(x.X, d+1)
 		}
 		return false
